@@ -241,7 +241,13 @@ def run(res, rng, tier, known):
             box, impl = boxed(lambda vs=vs, k=k: torchtt.meshgrid(vs)[k])
             cases.append(Case(J("meshgrid", d, vtok, k), impl, chk_tt(box, mg_dense, dt, [1] * (d + 1), N), "meshgrid/d%d/%s" % (d, dtname), True))
     rng.shuffle(cases)
+    # --- result dtypes on all 16 ordered dtype pairs, tied to the Lean model DType.promote (theorems TT.C03d)
+    from util import dtype_cases
+    sameN = lambda rng_, d, n: [[rng_.randint(1, 3) for _ in range(d)]] * n
+    cases += dtype_cases(rng, [("add", lambda xs: xs[0] + xs[1], lambda ds: ds[0] + ds[1], sameN),
+                               ("sub", lambda xs: xs[0] - xs[1], lambda ds: ds[0] - ds[1], sameN),
+                               ("mul", lambda xs: xs[0] * xs[1], lambda ds: ds[0] * ds[1], sameN)], "binary")
     run_cases(res, cases, known)
     return {"level": LEVEL, "rule": RULE, "assumptions": ASSUMPTIONS,
-            "not_by_theorem": ["dtype preservation (checked by the oracle on every case, modelled as a table only)",
+            "not_by_theorem": ["dtype rules for python / numpy / torch SCALAR operands (oracle: torch result_type); for TT operands the dtype is tied to DType.promote (theorems C03d)",
                                "float roundoff on non-exact inputs (outside the model; the property says 'exactly' for exact arithmetic)"]}
